@@ -52,6 +52,9 @@ func (e *Engine) closureTerms(st *State, fr *Frame, fnv Val, nargs int, hint str
 	if fnv.Fn == nil || fnv.Fn.Fn == nil {
 		panic(unsupported("%s: function argument is not a closure known at the call site", hint))
 	}
+	if fnv.Fn.Bound != nil {
+		vals = append([]Val{*fnv.Fn.Bound}, vals...)
+	}
 	n := 0
 	heapBefore := fmt.Sprint(sub.sliceHeap, sub.objHeap, sub.mapHeap)
 	sfr := &Frame{depth: fr.depth, env: fr.env, fn: fr.fn, regs: fr.regs, names: fr.names}
@@ -145,4 +148,172 @@ func (e *Engine) sortSliceModel(st *State, fr *Frame, args []Val, pos string, st
 		st.Assume(T(SBool, "(forall ((q_i Int) (q_j Int)) (! (=> (and (<= 0 q_i) (< q_i q_j) (< q_j %s) (not %s)) (< (select %s q_i) (select %s q_j))) :pattern ((select %s q_i) (select %s q_j))))", n.S, l("q_i", "q_j").S, perm.S, perm.S, perm.S, perm.S))
 	}
 	k(st, fr, Val{T: types.NewTuple()})
+}
+
+// ---------------------------------------------------------------------------
+// sort.Sort / sort.Stable / sort.Reverse over a sort.Interface adapter, rand.Shuffle.
+//
+// ASSUMED contract of sort.Sort(data) and sort.Stable(data): with n = data.Len(), the call performs a finite
+// sequence of data.Swap(i, j) with 0 <= i, j < n — so the memory the adapter's Swap permutes (declared by
+// `opt sortdata <expr>` on the adapter's proved Swap contract) ends up as a permutation of itself, exposed as
+// ghost `sortperm` (new[i] == old[sortperm[i]]) — and afterwards !data.Less(j, i) for all i < j; Stable
+// additionally keeps elements that Less cannot order in their original relative order. sort.Reverse(x) is x with
+// Less(i, j) replaced by x.Less(j, i).
+
+var reverseMarker = types.NewNamed(types.NewTypeName(0, nil, "sort.reverse", nil), types.NewStruct(nil, nil), nil)
+
+func (e *Engine) sortInterfaceModel(st *State, fr *Frame, data Val, stable bool, pos string, k callCont) {
+	rev := false
+	for data.Fn != nil && data.Fn.Bound != nil && data.Fn.Bound.T == reverseMarker {
+		rev = !rev
+		data = *data.Fn.Bound.Fn.Bound
+	}
+	if data.Fn == nil || data.Fn.Bound == nil {
+		panic(unsupported("sort: the sort.Interface argument is not known at the call site"))
+	}
+	cv := *data.Fn.Bound
+	ms := e.prog.MethodSets.MethodSet(cv.T)
+	find := func(name string) (*ssa.Function, TEnv) {
+		for i := 0; i < ms.Len(); i++ {
+			if ms.At(i).Obj().Name() == name {
+				return e.methodOf(ms.At(i), cv.T, fr.env)
+			}
+		}
+		panic(unsupported("sort: adapter %s has no method %s", cv.T, name))
+	}
+	swapFn, _ := find("Swap")
+	lessFn, lessEnv := find("Less")
+	sc := e.contractFor(swapFn)
+	if sc == nil || len(sc.Extra["sortdata"]) == 0 {
+		panic(unsupported("sort: adapter %s needs a Swap contract with `opt sortdata <expr>`", cv.T))
+	}
+	e.callees[e.contractKey(swapFn)+" (adapter Swap contract: exchanges exactly two elements)"] = true
+	ex, err := ParseSpecExpr(sc.Extra["sortdata"][0])
+	if err != nil {
+		panic(unsupported("sortdata: %v", err))
+	}
+	recvName := bodyOf(swapFn).Params[0].Name()
+	se := &SpecEnv{e: e, st: st, old: st, fr: fr, vars: map[string]Val{recvName: cv}, env: fr.env, pkg: sc.Pkg}
+	sv := e.evalSpec(ex, se)
+	n := sv.L[2]
+	et := resolve(elemOfSlice(sv.T), nil)
+	perm := e.sortPermute(st, sv, et, n)
+	// the order, evaluated on the final arrangement
+	i0 := e.ctx.Fresh("less_i", SInt)
+	j0 := e.ctx.Fresh("less_j", SInt)
+	sub := st.Clone()
+	sub.Assume(And(Le(IntLit(0), i0), Lt(i0, n), Le(IntLit(0), j0), Lt(j0, n)))
+	sub.path = append(sub.path, "@less.")
+	var res Val
+	cnt := 0
+	sfr := &Frame{depth: fr.depth, env: fr.env, fn: fr.fn, regs: fr.regs, names: fr.names}
+	e.execFunction(sub, lessFn, lessEnv, []Val{cv, mkInt(i0), mkInt(j0)}, nil, sfr, nil, func(s2 *State, results []Val) {
+		cnt++
+		if len(results) == 1 {
+			res = results[0]
+		}
+	})
+	if cnt != 1 {
+		panic(unsupported("sort: adapter Less has %d return paths", cnt))
+	}
+	l := func(x, y string) Term {
+		if rev {
+			x, y = y, x
+		}
+		return substTerm(res.L[0], []Term{i0, j0}, []string{x, y})
+	}
+	st.Assume(T(SBool, "(forall ((q_i Int) (q_j Int)) (! (=> (and (<= 0 q_i) (< q_i q_j) (< q_j %s)) (not %s)) :pattern ((idx q_i) (idx q_j))))", n.S, l("q_j", "q_i").S))
+	if stable {
+		st.Assume(T(SBool, "(forall ((q_i Int) (q_j Int)) (! (=> (and (<= 0 q_i) (< q_i q_j) (< q_j %s) (not %s)) (< (select %s q_i) (select %s q_j))) :pattern ((select %s q_i) (select %s q_j))))", n.S, l("q_i", "q_j").S, perm.S, perm.S, perm.S, perm.S))
+	}
+	k(st, fr, Val{T: types.NewTuple()})
+}
+
+// sortPermute replaces the slice's cells by a ghost permutation of themselves.
+func (e *Engine) sortPermute(st *State, sv Val, et types.Type, n Term) Term {
+	perm := e.ctx.Fresh("sortperm", ArrSort(SInt, SInt))
+	st.Assume(T(SBool, "(forall ((q_i Int)) (! (=> (and (<= 0 q_i) (< q_i %s)) (and (<= 0 (select %s q_i)) (< (select %s q_i) %s))) :pattern ((select %s q_i))))", n.S, perm.S, perm.S, n.S, perm.S))
+	st.Assume(T(SBool, "(forall ((q_i Int) (q_j Int)) (! (=> (and (<= 0 q_i) (< q_i q_j) (< q_j %s)) (not (= (select %s q_i) (select %s q_j)))) :pattern ((select %s q_i) (select %s q_j))))", n.S, perm.S, perm.S, perm.S, perm.S))
+	for i, lf := range e.lay.Leaves(et) {
+		h := e.getSliceHeap(st, et, i)
+		oldRow := Select(h, sv.L[0])
+		newRow := e.ctx.DefArray("row_sorted", SInt, lf.Sort, func(kk Term) Term {
+			in := And(Le(sv.L[1], kk), Lt(kk, Add(sv.L[1], n)))
+			return Ite(in, Select(oldRow, Add(sv.L[1], Select(perm, Sub(kk, sv.L[1])))), Select(oldRow, kk))
+		})
+		e.setSliceHeap(st, et, i, e.nameTerm(st, e.sliceHeapKey(et, i), Store(h, sv.L[0], newRow)))
+	}
+	st.ghost["sortperm"] = Val{T: nil, L: []Term{perm}}
+	return perm
+}
+
+// shuffleModel: ASSUMED contract of rand.Shuffle / (*rand.Rand).Shuffle(n, swap): a finite sequence of
+// swap(i, j) calls with 0 <= i, j < n that is a function of the generator's state and n only. The engine
+// checks (obligation) that the supplied swap exchanges exactly the two elements of the slice named by the
+// caller's `opt sortdata`, and then permutes that slice by shufperm(source, n).
+func (e *Engine) shuffleModel(st *State, fr *Frame, src Term, n Term, swap Val, pos string, k callCont) {
+	rc := e.rootC
+	if fr.contract != nil {
+		rc = fr.contract
+	}
+	if rc == nil || len(rc.Extra["sortdata"]) == 0 {
+		panic(unsupported("Shuffle: the calling function needs `opt sortdata <slice>`"))
+	}
+	ex, err := ParseSpecExpr(rc.Extra["sortdata"][0])
+	if err != nil {
+		panic(unsupported("sortdata: %v", err))
+	}
+	se := e.specEnv(st, e.entry, fr)
+	se.preferNames = true
+	sv := e.evalSpec(ex, se)
+	et := resolve(elemOfSlice(sv.T), nil)
+	e.obligation(st, "call-pre", "Shuffle.n@"+pos, Eq(n, sv.L[2]), "Shuffle is given the length of the slice its swap function permutes")
+	// the swap closure exchanges exactly elements i and j
+	i0 := e.ctx.Fresh("swap_i", SInt)
+	j0 := e.ctx.Fresh("swap_j", SInt)
+	sub := st.Clone()
+	sub.Assume(And(Le(IntLit(0), i0), Lt(i0, n), Le(IntLit(0), j0), Lt(j0, n)))
+	sub.path = append(sub.path, "@swap.")
+	if swap.Fn == nil || swap.Fn.Fn == nil {
+		panic(unsupported("Shuffle: swap is not a closure known at the call site"))
+	}
+	sfr := &Frame{depth: fr.depth, env: fr.env, fn: fr.fn, regs: fr.regs, names: fr.names}
+	e.execFunction(sub, swap.Fn.Fn, swap.Fn.Env, []Val{mkInt(i0), mkInt(j0)}, swap.Fn.Bindings, sfr, nil, func(s2 *State, results []Val) {
+		for li := range e.lay.Leaves(et) {
+			before := e.getSliceHeap(st, et, li)
+			after := e.getSliceHeap(s2, et, li)
+			row := Select(before, sv.L[0])
+			want := Store(before, sv.L[0], Store(Store(row, Add(sv.L[1], i0), Select(row, Add(sv.L[1], j0))), Add(sv.L[1], j0), Select(row, Add(sv.L[1], i0))))
+			e.obligation(s2, "call-pre", "Shuffle.swap-is-transposition@"+pos, T(SBool, "(= %s %s)", after.S, want.S), "the function passed to Shuffle exchanges exactly elements i and j of the slice")
+		}
+	})
+	perm := e.sortPermute(st, sv, et, n)
+	sp := e.ctx.App("shufperm", ArrSort(SInt, SInt), src, n)
+	st.Assume(T(SBool, "(= %s %s)", perm.S, sp.S))
+	st.ghost["shufsrc"] = mkInt(src)
+	k(st, fr, Val{T: types.NewTuple()})
+}
+
+func init() {
+	externModels["sort.Sort"] = func(e *Engine, st *State, fr *Frame, callee *ssa.Function, args []Val, rt types.Type, pos string, k callCont) {
+		e.sortInterfaceModel(st, fr, args[0], false, pos, k)
+	}
+	externModels["sort.Stable"] = func(e *Engine, st *State, fr *Frame, callee *ssa.Function, args []Val, rt types.Type, pos string, k callCont) {
+		e.sortInterfaceModel(st, fr, args[0], true, pos, k)
+	}
+	externModels["sort.Reverse"] = func(e *Engine, st *State, fr *Frame, callee *ssa.Function, args []Val, rt types.Type, pos string, k callCont) {
+		inner := args[0]
+		marker := Val{T: reverseMarker, Fn: &FuncVal{Bound: &inner}}
+		out := Val{T: rt, L: []Term{e.ctx.Fresh("rev_tag", SInt), e.ctx.Fresh("rev_box", e.ctx.DeclareSort("Box"))}, Fn: &FuncVal{Bound: &marker}}
+		st.Assume(Not(Eq(out.L[0], IntLit(0))))
+		k(st, fr, out)
+	}
+	externModels["math/rand.Shuffle"] = func(e *Engine, st *State, fr *Frame, callee *ssa.Function, args []Val, rt types.Type, pos string, k callCont) {
+		e.shuffleModel(st, fr, e.ctx.Const("global_rand_source", SInt), args[0].L[0], args[1], pos, k)
+	}
+	externModels["(*math/rand.Rand).Shuffle"] = func(e *Engine, st *State, fr *Frame, callee *ssa.Function, args []Val, rt types.Type, pos string, k callCont) {
+		e.obligationPanic(st, "nil", pos, Not(Eq(args[0].L[0], IntLit(0))))
+		src := e.ctx.App("randstate", SInt, args[0].L[0])
+		e.shuffleModel(st, fr, src, args[1].L[0], args[2], pos, k)
+	}
 }
